@@ -10,6 +10,8 @@ pub struct EvLogInner {
     /// inner polls since the last poll_begin
     pub inner: u64,
     pub lines: u64,
+    /// mock events of a runaway poll are not recorded past this many inner polls
+    pub muted: bool,
     /// the events of the current run (kept for replay files)
     pub current: Vec<String>,
 }
@@ -30,6 +32,7 @@ impl EvLog {
             run: 0,
             inner: 0,
             lines: 0,
+            muted: false,
             current: vec![],
         })))
     }
@@ -41,6 +44,9 @@ impl EvLog {
     /// Emit one event. `fields` must be a JSON object; `ev`, `run`, `seq` are added.
     pub fn emit(&self, ev: &str, fields: Value) {
         let mut g = self.lock();
+        if g.muted {
+            return;
+        }
         g.seq += 1;
         let mut m = Map::new();
         m.insert("ev".into(), json!(ev));
@@ -71,6 +77,12 @@ impl EvLog {
     pub fn count_inner(&self) -> u64 {
         let mut g = self.lock();
         g.inner += 1;
+        if g.inner == 300 {
+            drop(g);
+            self.emit("muted", json!({"after_inner": 300}));
+            g = self.lock();
+            g.muted = true;
+        }
         g.inner
     }
 
@@ -78,6 +90,7 @@ impl EvLog {
         let mut g = self.lock();
         let n = g.inner;
         g.inner = 0;
+        g.muted = false;
         n
     }
 
